@@ -616,7 +616,7 @@ def enumerated(rng, tier):
                         b0.run_to_end(2)
                     scheds = all_schedules(b0.mirror, tids)
                     if variant == "edit" and tier == "quick":
-                        scheds = rng.sample(scheds, min(len(scheds), 4))
+                        scheds = rng.sample(scheds, min(len(scheds), 3))
                     for sch in scheds:
                         b = Builder(rng, debug).clone_of(b0)
                         if variant == "edit":
@@ -876,7 +876,7 @@ class C10(Prop):
     prop_module = "Props.C10"
     prop_file = "Props/C10.v"
     coq_targets = ["Props/C10.vo", "Run/Judge_C10.vo"]
-    sizes = {"quick": 700, "thorough": 15000}
+    sizes = {"quick": 600, "thorough": 5000}
     shard = 120
     design_ref = "DESIGN.md section 6 C10, section 5 (yield points); compile steps, probes and file-identity regimes: gen/c10.py, harness/c10.go headers"
     rule = ("one case = one real Engine (production or debug mode) over a generated directory (template names that are "
@@ -899,7 +899,7 @@ class C10(Prop):
             "for 13 production (5 of them with a filtered explicit load of a template, a directory prefix or a missing "
             "name before / beside a first render or a load of all templates) and 11 debug call pairs on seven tree scenarios (all files good; an error file; a panic "
             "file; an error / a panic file sharing a name prefix with the rendered templates; both kinds; an undefined "
-            "mixin), plain, with an edit at a random position (4 sampled interleavings, thorough: all), and after a "
+            "mixin), plain, with an edit at a random position (3 sampled interleavings, thorough: all), and after a "
             "warm-up call (thorough adds 700 sampled interleavings of three calls for 4 triples x 3 scenarios). "
             "Stream 2 (60% of n): random histories of 3..14 (thorough 24) calls, concurrency 1 (sequential), 2 or "
             "3, edits with probability 0/0.15/0.35 per step; in BOTH modes 70% of the calls are renders, 15% loads of "
@@ -956,8 +956,10 @@ class C10(Prop):
         "schedules whose outcome depends on which waiting goroutine wins the lock (two or more calls in flight one of "
         "which would start the next load) are not generated and declined by the judge; several calls wait together "
         "only for a load that succeeds and when none of them starts another load",
-        "a released goroutine that neither parks nor returns within 2 s is reported as stuck (a correct step takes "
-        "microseconds to a few milliseconds); a goroutine expected to wait is watched for 30 ms (a goroutine that "
+        "a released goroutine that neither parks nor returns within 2 s AND is then seen waiting (state semacquire / "
+        "sync.* / chan / select in the runtime's goroutine dump, twice, 200 ms apart) is reported as stuck; one that "
+        "is running, runnable or in a system call is only slow (busy machine) and gets up to 90 s - 'stuck' is an "
+        "observation of the goroutine's state, not of the machine's speed; a goroutine expected to wait is watched for 30 ms (a goroutine that "
         "wrongly does not wait but needs longer than that to return is missed by that probe, not by the result "
         "check); unreadable directory entries and symlinks are not generated (the harness runs as root)",
         "error texts are only mapped to the classes again / not_found / load_error; a panic out of the call is its own class",
